@@ -368,6 +368,30 @@ def _family_cases(shard, nshards):
             yield {"family": f}
 
 
+def check_legacy_neighbour(case: dict):
+    """a tokenizer at Hamming distance <= 2 (over the 14 parameter axes) from a legacy image reports legacy equivalence iff it IS an image"""
+    pa = C06.params_from_tuple(case["tuple"])
+    a = L.make_tokenizer(pa)
+    images = {json.dumps(C06.params_from_tuple(_DEFAULT_TUPLE), sort_keys=True), json.dumps(C06.params_from_tuple({**_DEFAULT_TUPLE, "coord": 8}), sort_keys=True)}
+    is_img = json.dumps(pa, sort_keys=True) in images
+    got = bool(call("C15:is_legacy_equivalent", a.is_legacy_equivalent))
+    require(got == is_img, "C15:legacy-equivalence-wrong", f"is_legacy_equivalent()={got} for {a.name}, which {'is' if is_img else 'is not'} the image of a legacy mode (differs from it in {case['axes']})")
+    return {"nt": not is_img, "labels": [f"distance:{len(case['axes'])}"]}
+
+
+def _legacy_neighbour_cases(shard, nshards, radius=2):
+    import itertools
+
+    k = 0
+    for base in (_DEFAULT_TUPLE, {**_DEFAULT_TUPLE, "coord": 8}):
+        for r in range(radius + 1):
+            for axes in itertools.combinations(C06.AXIS_NAMES, r):
+                for vals in itertools.product(*[[v for v in C06.AXES[ax] if v != base[ax]] for ax in axes]):
+                    k += 1
+                    if k % nshards == shard:
+                        yield {"tuple": {**base, **dict(zip(axes, vals))}, "axes": list(axes)}
+
+
 def _legacy_cases(shard, nshards):
     for k, m in enumerate(["AOTP_UT_rasterized", "AOTP_UT_uniform", "AOTP_CTT_indexed"]):
         if k % nshards == shard:
@@ -382,6 +406,7 @@ def subs(tier: str):
         Sub("identity", check_identity, "hypothesis", strategy=_identity, examples=100 if q else 6000),
         Sub("name-format", _check_full_name_format, "hypothesis", strategy=lambda: st.fixed_dictionaries({"tuple": _tuple()}), examples=20 if q else 200),
         Sub("legacy-map", check_legacy_map, "exhaustive", cases=_legacy_cases, exhaustive_flag=True),
+        Sub("legacy-neighbourhood", check_legacy_neighbour, "exhaustive", cases=(lambda sh, n: _legacy_neighbour_cases(sh, n, 2 if q else 3)), exhaustive_flag=True),
         Sub("cross-process", _replay_cross, "custom", run=_cross_process(150 if q else 600, ["0", "1", "4242"] if q else ["0", "1", "4242", "random", "31337"])),
     ]
     if not q:
